@@ -65,6 +65,9 @@ def record_minres(sc):
         shifts = 0.1 + 1.9 * u
         if sc["neg_shift"]:
             shifts = shifts - 0.5        # indefinite but non-singular systems (the spectrum of K starts at 1)
+        if sc.get("shift_spread") and shifts.dim() > 0 and shifts.shape[0] > 1:
+            # the FIRST shift makes its system trivially easy (K + s I ~ s I): the stopping rule must still wait for the hard ones
+            shifts[0] = shifts[0] * 100.0 * sc["kappa"]
         shifts = shifts.to(dtype)
         s64 = shifts.to(torch.float64)
         sigma = s64.reshape(S, *([1] * (len(batch) - len(sb))), *sb).expand(S, *batch) if s64.dim() > 0 else s64.expand(1, *batch)
@@ -176,7 +179,10 @@ def record_ciq(sc):
     Kinvsqrt = (V / w.sqrt().unsqueeze(-2)) @ V.mT
     Ksqrt = (V * w.sqrt().unsqueeze(-2)) @ V.mT
     Kinv = (V / w.unsqueeze(-2)) @ V.mT
-    rhs = torch.randn(*batch, n, max(1, c), generator=g, dtype=torch.float64).to(dtype)
+    # (the right-hand side may carry batch dimensions in front of the operator's own: everything broadcasts)
+    extra = list(sc.get("rhs_extra", []))
+    obatch = extra + list(batch)
+    rhs = torch.randn(*obatch, n, max(1, c), generator=g, dtype=torch.float64).to(dtype)
     lhs = torch.randn(*batch, 2, n, generator=g, dtype=torch.float64).to(dtype)
     r64, l64 = rhs.to(torch.float64), lhs.to(torch.float64)
     fin = dict(shape_ok=True, finite=True, invsqrt=NA, sqrt=NA, twice=NA, left=NA, leftdiag=NA, noshift=NA, gram=NA)
@@ -194,7 +200,7 @@ def record_ciq(sc):
                 for inverse in (True, False):
                     solves, weights, noshift, shifts = contour_integral_quad(op, rhs, inverse=inverse, num_contour_quadrature=sc["Q"])
                     res = (solves * weights).sum(0)
-                    if list(res.shape) != list(batch) + [n, max(1, c)] or list(noshift.shape) != list(batch) + [n, max(1, c)]:
+                    if list(res.shape) != obatch + [n, max(1, c)] or list(noshift.shape) != obatch + [n, max(1, c)]:
                         fin["shape_ok"] = False
                         continue
                     if not torch.isfinite(res).all():
@@ -216,8 +222,10 @@ def record_ciq(sc):
             elif not precond:
                 twice = op.sqrt_inv_matmul(once)
                 fin["twice"] = rel(twice, (Kinv @ (r64[..., 0] if rarg.dim() == r64.dim() - 1 else r64).unsqueeze(-1)).squeeze(-1) if rarg.dim() == r64.dim() - 1 else Kinv @ r64)
-            both = op.sqrt_inv_matmul(rhs, lhs)
-            if not (isinstance(both, tuple) and list(both[0].shape) == list(batch) + [2, max(1, c)] and list(both[1].shape) == list(batch) + [2]):
+            both = op.sqrt_inv_matmul(rhs, lhs) if not extra else None
+            if extra:
+                pass
+            elif not (isinstance(both, tuple) and list(both[0].shape) == list(batch) + [2, max(1, c)] and list(both[1].shape) == list(batch) + [2]):
                 fin["shape_ok"] = False
             else:
                 if not precond:
@@ -255,13 +263,26 @@ def scenarios(tier, seed, cases):
         out.append(dict(kind="minres", id=base + i, seed=seed * 104729 + i, n=n, opb=opb, rhs_batch=opb, cols=cols, shifts=sh, expect=expect, family=fams[h(7) % 3], kappa=kap,
                         precond=["none", "jacobi", "exact", "lowrank", "jacobi*1e4"][h(8) % 5], tol=[1e-4, 1e-2, 1e-6][h(9) % 3], dt=dt, zero_col=h(10) % 4 == 0, neg_shift=h(11) % 6 == 0))
     base = len(out)
+    # (b') shifts of very different difficulty, the easiest first, on systems that need more than one convergence check (every 10 iterations)
+    k = 0
+    for n in (20, 30, 40):
+        for kap in (1e2, 1e3, 1e4):
+            for sh in ([2], [3]):
+                k += 1
+                if tier == "quick" and k % 2:
+                    continue
+                out.append(dict(kind="minres", id=base + k, seed=seed * 15485863 + k, n=n, opb=[], rhs_batch=[], cols=1 + k % 2, shifts=sh, expect=[sh[0], n, 1 + k % 2],
+                                family=fams[k % 3], kappa=kap, precond="none", tol=[1e-4, 1e-6][k % 2], dt="f64", zero_col=False, neg_shift=False, shift_spread=True))
+    base = len(out) + 64
     # (c) contour quadrature
     N = 48 if tier == "quick" else 300
     classes = ["Dense", "AddedDiag", "AddedDiagPrecond", "Diag", "ConstDiag", "Identity"]
     for i in range(N):
         h = lambda q: _h(i, q, 19)
         n = [1, 3, 8, 15, 20][h(1) % 5]
-        out.append(dict(kind="ciq", id=base + i, seed=seed * 1299709 + i, n=n, batch=[[], [2]][h(2) % 2], cols=[0, 1, 3][h(3) % 3], cls=classes[i % len(classes)],
+        bt = [[], [2]][h(2) % 2]
+        out.append(dict(kind="ciq", id=base + i, seed=seed * 1299709 + i, n=n, batch=bt, cols=[0, 1, 3][h(3) % 3], cls=classes[i % len(classes)],
+                        rhs_extra=[[], [2], [3]][h(9) % 3] if (bt and classes[i % len(classes)] in ("Dense", "AddedDiag")) else [],
                         family=fams[h(4) % 2 * 2], kappa=[1, 10, 100][h(5) % 3] if n > 1 else 1, dt="f32" if h(6) % 5 == 0 else "f64", tight=h(7) % 2 == 0, Q=[15, 25][h(8) % 2]))
     return out
 
